@@ -81,6 +81,10 @@ def trig_terms(t):
                    z3.Implies(z3.And(t < 0, t > -PI), s < 0),
                    z3.Implies(t == 0, z3.And(c == 1, s == 0))]
         r = (SV(t=c), SV(t=s))
+        # congruence with the other trig atoms (equal angles => equal values), parity
+        for (t2, c2, s2) in E.trig_atoms[-6:]:
+            E.defs.append(z3.Implies(t == t2, z3.And(c == c2, s == s2)))
+            E.defs.append(z3.Implies(t == -t2, z3.And(c == c2, s == -s2)))
         E.trig_atoms.append((t, c, s))
     E.memo[key] = (r[0], r[1], t)
     E.keep.append(t)
